@@ -2,7 +2,7 @@
 import random
 from .. import gen, diff
 from ..real import Real
-from ..terms import V, rterm, A, C, L, NIL, I
+from ..terms import V, rterm, A, C, L, NIL, I, term_vars
 from .common import result_from_diff, diff_replay
 
 PROPERTY = 'C01'
@@ -133,6 +133,15 @@ def wide_case(rng):
     X, Y = V('X'), V('Y')
 
     def head_args():
+        if rng.random() < 0.5:
+            # mostly constants and structures, and ONE variable at two or three direct positions (a wide record with
+            # an equality constraint between fields)
+            out = [consts[(i + rng.choice([0, 0, 1])) % len(consts)] if rng.random() < 0.9 else C('g', A('k1')) for i in range(K)]
+            for pos in rng.sample(range(K), rng.choice([2, 2, 3])):
+                out[pos] = X
+            if rng.random() < 0.3:
+                out[rng.randrange(K)] = Y
+            return out
         out = []
         for i in range(K):
             r = rng.random()
@@ -152,17 +161,21 @@ def wide_case(rng):
     cl.append((C('wr', *ha), ('and', ('call', C('w', *[a if a[0] == 'v' and a[1] != '_' else V('B%d' % i) for i, a in enumerate(ha)])),
                               ('call', C('=', Y, rng.choice([X, A('k0'), Y]))))))
     qv = [V('Q0'), V('Q1'), V('Q2')]
+    # the query is modelled on one of the clause heads, so that it gets past the constant fields and what decides is
+    # the repeated variable: its positions get two different constants, the same constant, or query variables
+    target = rng.choice(cl)[0][2]
     qargs = []
     for i in range(K):
+        a = target[i]
         r = rng.random()
-        if r < 0.45:
-            qargs.append(consts[i % len(consts)])
-        elif r < 0.85:
+        if a[0] == 'v':
+            qargs.append(rng.choice(qv) if r < 0.5 else rng.choice(consts[:3]))
+        elif r < 0.55:
+            qargs.append(a if a[0] != 'c' or not term_vars(a) else C('g', rng.choice(consts[:2])))
+        elif r < 0.9:
             qargs.append(rng.choice(qv))
-        elif r < 0.93:
-            qargs.append(rng.choice(consts))
         else:
-            qargs.append(C('g', rng.choice(qv)))
+            qargs.append(rng.choice(consts))
     return cl, rng.choice(['w', 'w', 'wr']), qargs
 
 
